@@ -1632,7 +1632,16 @@ type ProposalMessage struct {
 
 // ValidateBasic performs basic validation.
 func (m *ProposalMessage) ValidateBasic() error {
-	return m.Proposal.ValidateBasic()
+	if err := m.Proposal.ValidateBasic(); err != nil {
+		return err
+	}
+	// The receiver sizes a bit array (PeerState.SetHasProposal) and a part set
+	// (State.defaultSetProposal) by Total before the signature is checked.
+	if m.Proposal.BlockID.PartSetHeader.Total > types.MaxBlockPartsCount {
+		return fmt.Errorf("too many block parts in proposal: %d, max: %d",
+			m.Proposal.BlockID.PartSetHeader.Total, types.MaxBlockPartsCount)
+	}
+	return nil
 }
 
 // String returns a string representation.
